@@ -19,6 +19,8 @@ func init() {
 	// C11.go
 	add("c11-go-postprocess", "C11.go", qgo, "return q.String()", "return q.String() + \"\"", "_query_tostring:result")
 	add("c11-go-parse-other", "C11.go", qgo, "q, err := gojq.Parse(c)", "q, err := gojq.Parse(c + \" \")", "_query_fromstring:parse-arg")
+	add("c11-go-recover-nonerror", "C11.go", qgo, "v = fmt.Errorf(\"invalid query: %v\", r)", "v = fmt.Sprintf(\"invalid query: %v\", r)", "_query_tostring:result:other-writes")
+	add("c11-go-defer-unconditional", "C11.go", qgo, "if r := recover(); r != nil {\n\t\t\tv = fmt.Errorf(\"invalid query: %v\", r)\n\t\t}", "r := recover()\n\t\tv = fmt.Errorf(\"invalid query: %v\", r)", "_query_tostring:result:other-writes")
 	add("c11-go-drop-errcheck", "C11.go", qgo, "if err := json.Unmarshal(b, &q); err != nil {\n\t\treturn err\n\t}", "_ = json.Unmarshal(b, &q)", "_query_tostring:err:Unmarshal")
 
 	// C11.ctor
